@@ -557,6 +557,18 @@ func modelTimeFormat(x *Exec, fr *Frame, st *State, pc *preparedCall, k func(*St
 
 func modelTimeParse(x *Exec, fr *Frame, st *State, pc *preparedCall, k func(*State, []Value)) {
 	s := pc.args[1].(StrV)
+	// timeparse_ok / timeparse_val in contracts stand for parsing an HTTP-date (layout
+	// http.TimeFormat); any other layout is a different partial function of the text
+	if layout, ok := pc.args[0].(StrV); ok {
+		if lit, isLit := strLitOf(layout); !isLit || lit != "Mon, 02 Jan 2006 15:04:05 GMT" {
+			tag := "timeparse_other"
+			if isLit {
+				tag = "timeparse_" + sanitize(lit)
+			}
+			modelParseTimeCommon(x, st, s, tag, k)
+			return
+		}
+	}
 	modelParseTimeCommon(x, st, s, "timeparse", k)
 }
 
